@@ -26,4 +26,8 @@ for m in repo.modules.values():
         if n in names and n.startswith("_"):
             out[f"{m.name}:{n}"] = fingerprint(fi)
 json.dump(out, open(os.path.join(HERE, "anchors.json"), "w"), indent=1, sort_keys=True)
+# the private identifiers (attributes, methods, functions, module-level names) of the tree the rules
+# were written for: state or helpers under any *other* private name have no model in the rules
+from sa.model import private_names          # noqa: E402
+json.dump(sorted(private_names(repo)), open(os.path.join(HERE, "private_names.json"), "w"), indent=0)
 print(len(out), "anchor fingerprints written")
